@@ -329,6 +329,11 @@ func (s *Server) addTarget(ctx context.Context, targetID configapi.TargetID, tar
 
 	// If the target is present in the overrides, use its type/version information to lookup the plugin
 	if ttv, ok := overrides[string(targetID)]; ok {
+		if ttv == nil {
+			err = errors.NewInvalid("target version override for %s has no value", targetID)
+			log.Warn(err)
+			return err
+		}
 		targetType = ttv.TargetType
 		targetVersion = ttv.TargetVersion
 	}
